@@ -203,6 +203,8 @@ def b_dict(ex, node, st):
 
 
 def b_set(ex, node, st):
+    if len(node.args) == 1 and _as_setcomp(ex, node.args[0]) is not None:
+        return eval_setcomp(ex, _as_setcomp(ex, node.args[0]), st)
     if not node.args:
         o = ex.new_dict(st, z3.K(Val, False), T.NOGET, z3.IntVal(0), K("set"), "set")
         return [(st, "val", sv_val(o))]
@@ -497,6 +499,13 @@ def call_contract(ex: Executor, node, st, target: str, extra_first: List[SV] = (
                     bind[vararg] = t
         elif star:
             raise Unsupported("starred call of function without *args")
+        # name the argument values: a contract's quantifier patterns must not contain the
+        # if-then-else terms produced by merged evaluation paths
+        for pname, t in list(bind.items()):
+            if z3.is_expr(t) and not (z3.is_const(t) and t.decl().kind() == z3.Z3_OP_UNINTERPRETED):
+                a = ex.fresh("arg_" + pname, t.sort())
+                s.assume(a == t)
+                bind[pname] = a
         outs.extend(apply_contract(ex, s, callee, bind, node))
     return outs
 
@@ -517,6 +526,11 @@ def apply_contract(ex: Executor, st: State, callee, bind, node):
     cctx = CalleeCtx(ex, st, bind)
     for j, r in enumerate(callee.requires(cctx)):
         ex.oblige(f"precondition #{j} of {callee.target.split(':')[1]}", st, r, node, kind="pre")
+    if hasattr(callee, "decreases") and callee.target.split("#")[0] == ex.contract.target.split("#")[0]:
+        # recursion: the callee's measure is a non-negative integer strictly below the caller's
+        mine = ex.contract.decreases(ex.ctx)
+        theirs = callee.decreases(cctx)
+        ex.oblige("termination: the measure of the recursive call is non-negative and strictly smaller", st, z3.And(theirs >= 0, theirs < mine), node, kind="pre")
     mods = _mod_pairs(callee.modifies(cctx)) if hasattr(callee, "modifies") else []
     for o, guard in mods:
         allowed = z3.Or(z3.Not(T.alloc0[o]), *[o == m for m in ex.modifies_terms])
@@ -536,6 +550,9 @@ def apply_contract(ex: Executor, st: State, callee, bind, node):
             for o, guard in mods:
                 arr = z3.If(guard, z3.Store(arr, o, ex.fresh("hv", arr.sort().range())), arr) if not z3.is_true(guard) else z3.Store(arr, o, ex.fresh("hv", arr.sort().range()))
             h.set(hn, arr)
+        for hn in getattr(callee, "havoc_arrays", []):
+            # ghost state the callee may change anywhere (described by its ensures)
+            h.set(hn, ex.fresh(hn.replace(":", "_") + "_call", T.heap_sort(hn)))
         fake = Outcome(kind, s, sv_val(result) if kind == "return" else exc)
         if hasattr(callee, "allocates"):
             n_alloc = len(callee.allocates(CalleePostCtx(ex, s, bind, fake, pre_heap)))
@@ -574,7 +591,19 @@ class CalleeCtx(SpecCtx):
 
     def _pre(self, name):
         self.ex.touch_heap(name)
-        return self.pre_heap.get(name, T.heap0(name))
+        arr = self.pre_heap.get(name, T.heap0(name))
+        if z3.is_const(arr) and arr.decl().kind() == z3.Z3_OP_UNINTERPRETED:
+            return arr
+        # the heap at the call is a compound term (stores, if-then-else of merged paths): name it, so
+        # that the callee's quantifier patterns over its entry heap are legal triggers
+        named = getattr(self, "_named_pre", None)
+        if named is None:
+            named = self._named_pre = {}
+        if name not in named:
+            a = self.ex.fresh("pre_" + name.replace(":", "_"), arr.sort())
+            self.st.assume(a == arr)
+            named[name] = a
+        return named[name]
 
     def attr0(self, o, name):
         return self._pre(T.attr_heap(name))[o]
@@ -811,6 +840,7 @@ def _comp_domain(ex, gen, st):
     """-> (state, sort, u, dom(u) as a function, bind(state_u), ordered) or raises Unsupported"""
     if gen.is_async:
         raise Unsupported(f"async comprehension at {ex.where(gen.iter)}")
+    _comp_domain.last_lo = None
     it = gen.iter
     enum = False
     if isinstance(it, ast.Call) and isinstance(it.func, ast.Name) and it.func.id == "enumerate":
@@ -838,18 +868,35 @@ def _comp_domain(ex, gen, st):
                 su.env[tgt.id] = sv_val(get[u])
 
         return s, u, (lambda x: has[x]), bind, False, None
+    lo_node = None
+    if isinstance(it, ast.Subscript) and isinstance(it.slice, ast.Slice):
+        # xs[lo:] : the suffix of a sequence
+        if it.slice.upper is not None or it.slice.step is not None or it.slice.lower is None:
+            raise Unsupported(f"slice form in comprehension source at {ex.where(it)}")
+        lo_node, it = it.slice.lower, it.value
     kind = ex.container_kind(it)
-    evs = ex.eval(it, st)
+    evs = ex.eval_many([it] + ([lo_node] if lo_node is not None else []), st)
     if len(evs) != 1 or evs[0][1] != "val":
         raise Unsupported("comprehension source raising")
-    s, _, q = evs[0]
+    s, _, qs = evs[0]
+    q = qs[0]
     qt = as_val(q)
+    if lo_node is not None and kind not in ("list", "tuple", "seq"):
+        raise Unsupported("sliced comprehension source that is not a sequence")
     if kind in ("list", "tuple", "seq"):
         s.assume(z3.Or(isinst(qt, "list"), isinst(qt, "tuple")))
         h = Heap(ex, s)
         u = ex.fresh("cj", T.I)
         n = h.llen(qt)
         items = h.arr("lget")[qt]
+        lo = z3.IntVal(0)
+        if lo_node is not None:
+            from .symexec import as_int
+
+            l0 = as_int(qs[1])
+            l0 = z3.If(l0 < 0, z3.If(n + l0 < 0, 0, n + l0), l0)
+            lo = z3.If(l0 > n, n, l0)
+        _comp_domain.last_lo = lo
 
         def bind(su):
             tgt = gen.target
@@ -859,7 +906,7 @@ def _comp_domain(ex, gen, st):
             else:
                 su.env[tgt.id] = sv_val(items[u])
 
-        return s, u, (lambda x: z3.And(x >= 0, x < n)), bind, True, n
+        return s, u, (lambda x: z3.And(x >= lo, x < n)), bind, True, n
     if kind in ("dict", "set") and not enum:
         # iterating a dict / set: its keys / members (order not modelled)
         s.assume(z3.Or(isinst(qt, "dict"), isinst(qt, "set"), isinst(qt, "frozenset")))
@@ -924,6 +971,9 @@ def _comp_eval(ex, node, st, exprs):
         raise Unsupported("comprehension with several for clauses")
     gen = node.generators[0]
     s, u, dom0, bind, ordered, n = _comp_domain(ex, gen, st)
+    lo = _comp_domain.last_lo
+    _comp_eval.seq = (lo, n) if ordered and lo is not None else None  # source positions [lo, n)
+    _comp_eval.filtered = bool(gen.ifs)
     dom = dom0
     if gen.ifs:
         # the filter must be a pure total boolean of the element
@@ -995,6 +1045,31 @@ def _comp_outcomes(ex, s, u, dom, ordered, ok, excs, build):
 
 def eval_listcomp(ex, node, st):
     s, u, dom, ordered, n, ok, vals, excs = _comp_eval(ex, node, st, [node.elt])
+    seq, filtered = _comp_eval.seq, _comp_eval.filtered
+    if not ordered and seq is not None and filtered:
+        # filtered comprehension over a sequence: the kept elements IN SOURCE ORDER.  pos maps result
+        # positions to source positions (strictly increasing, onto the kept positions), inv is its inverse
+        lo, nn = seq
+
+        def build_ordered(g):
+            arr = ex.fresh("lco", T.ArrIV)
+            ln = ex.fresh("lcol", T.I)
+            pos = z3.Function(f"pos!{ex.fresh_n}", T.I, T.I)
+            inv = z3.Function(f"inv!{ex.fresh_n}", T.I, T.I)
+            ex.fresh_n += 1
+            k1, k2, jj = z3.Int("ck1"), z3.Int("ck2"), z3.Int("cjj")
+            val = lambda t: z3.substitute(vals[0], (u, t))  # noqa: E731
+            g.assume(ln >= 0, ln <= nn - lo)
+            g.assume(T.forall([k1], z3.Implies(z3.And(k1 >= 0, k1 < ln), z3.And(dom(pos(k1)), arr[k1] == val(pos(k1)), inv(pos(k1)) == k1)), patterns=[pos(k1)]))
+            g.assume(T.forall([k1], z3.Implies(z3.And(k1 >= 0, k1 < ln), z3.And(dom(pos(k1)), arr[k1] == val(pos(k1)))), patterns=[arr[k1]]))
+            g.assume(T.forall([k1, k2], z3.Implies(z3.And(k1 >= 0, k1 < k2, k2 < ln), pos(k1) < pos(k2)), patterns=[z3.MultiPattern(pos(k1), pos(k2))]))
+            g.assume(T.forall([jj], z3.Implies(dom(jj), z3.And(inv(jj) >= 0, inv(jj) < ln, pos(inv(jj)) == jj)), patterns=[inv(jj)]))
+            o = ex.new_list(g, ln, arr, hint="list")
+            # per path: the sidecar's proof steps may name the index maps of the latest filtered list
+            g.ghost["last_filtered"] = (o, pos, inv, dom)
+            return o
+
+        return _comp_outcomes(ex, s, u, dom, False, ok, excs, build_ordered)
     if not ordered:
         # filtered (or unordered-source) comprehension: a fresh list characterised by membership
         # (every kept element occurs, nothing else occurs); positions are not modelled
@@ -1010,11 +1085,13 @@ def eval_listcomp(ex, node, st):
 
         return _comp_outcomes(ex, s, u, dom, False, ok, excs, build_members)
 
+    lo0 = seq[0] if seq is not None else z3.IntVal(0)
+
     def build(g):
         arr = ex.fresh("lc", T.ArrIV)
         ub = z3.Int("cu")
-        g.assume(T.forall([ub], z3.Implies(dom(ub), arr[ub] == z3.substitute(vals[0], (u, ub))), patterns=[arr[ub]]))
-        return ex.new_list(g, n, arr, hint="list")
+        g.assume(T.forall([ub], z3.Implies(dom(ub), arr[ub - lo0] == z3.substitute(vals[0], (u, ub))), patterns=[arr[ub - lo0]]))
+        return ex.new_list(g, n - lo0, arr, hint="list")
 
     return _comp_outcomes(ex, s, u, dom, ordered, ok, excs, build)
 
